@@ -224,4 +224,73 @@ theorem lintEvents_split (cfg : Cfg) (norm : String → String)
     rtRun_split, nmRun_split]
   exact perm5 _ _ _ _ _ _ _ _ _ _
 
+/-! ### every list of visits is a header followed by methods -/
+
+theorem of_mem_takeWhile {α : Type} (p : α → Bool) (l : List α) (x : α) (h : x ∈ l.takeWhile p) : p x = true := by
+  induction l with
+  | nil => simp at h
+  | cons a rest ih =>
+    simp only [List.takeWhile_cons] at h
+    split at h
+    · rcases List.mem_cons.1 h with rfl | h
+      · assumption
+      · exact ih h
+    · simp at h
+
+/-- visits before the first method node (class header, constants, types, fields) -/
+def headerOf (evs : List Ev) : List Ev := evs.takeWhile (fun e => !isMethod e.node)
+
+def methodsFrom : List Ev → List Method
+  | [] => []
+  | e :: es =>
+    if h : isMethod e.node = true then
+      ⟨e, es.takeWhile (fun x => !isMethod x.node), h, fun x hx => by
+        have := of_mem_takeWhile _ _ _ hx
+        simpa using this⟩ :: methodsFrom (es.dropWhile (fun x => !isMethod x.node))
+    else methodsFrom es
+termination_by l => l.length
+decreasing_by
+  all_goals simp_wf
+  · exact Nat.lt_succ_of_le (List.dropWhile_sublist _).length_le
+
+/-- the methods of a list of visits -/
+def methodsOf (evs : List Ev) : List Method := methodsFrom (evs.dropWhile (fun e => !isMethod e.node))
+
+theorem methodsFrom_join (n : Nat) : ∀ (evs : List Ev), evs.length ≤ n →
+    (∀ e, evs.head? = some e → isMethod e.node = true) →
+    (methodsFrom evs).flatMap Method.evs = evs := by
+  induction n with
+  | zero =>
+    intro evs hl _
+    have : evs = [] := List.eq_nil_of_length_eq_zero (Nat.le_zero.mp hl)
+    subst this
+    simp [methodsFrom]
+  | succ n ih =>
+    intro evs hl hh
+    cases evs with
+    | nil => simp [methodsFrom]
+    | cons e es =>
+      have he : isMethod e.node = true := hh e rfl
+      rw [methodsFrom]
+      simp only [he, ↓reduceDIte, List.flatMap_cons, Method.evs, List.cons_append, List.cons.injEq, true_and]
+      have hlen : (es.dropWhile (fun x => !isMethod x.node)).length ≤ n :=
+        Nat.le_trans (List.dropWhile_sublist _).length_le (Nat.le_of_succ_le_succ hl)
+      have hhead : ∀ x, (es.dropWhile (fun x => !isMethod x.node)).head? = some x → isMethod x.node = true := by
+        intro x hx
+        have := List.head?_dropWhile_not (fun x : Ev => !isMethod x.node) es
+        rw [hx] at this
+        simpa using this
+      rw [ih _ hlen hhead]
+      exact List.takeWhile_append_dropWhile
+
+/-- **every file is a header followed by methods** (so `lint_file` / `lint_hom` speak about every file) -/
+theorem header_methods_join (evs : List Ev) : headerOf evs ++ (methodsOf evs).flatMap Method.evs = evs := by
+  unfold headerOf methodsOf
+  rw [methodsFrom_join _ _ (Nat.le_refl _)]
+  · exact List.takeWhile_append_dropWhile
+  · intro x hx
+    have := List.head?_dropWhile_not (fun x : Ev => !isMethod x.node) evs
+    rw [hx] at this
+    simpa using this
+
 end Gold.Lint
